@@ -19,7 +19,15 @@ func Parse(ctx *Context, p Parser) (Node, error) {
 	var err Error
 	var node Node
 
-	if node, _, err = p.Parse(ctx, data.EmptyIntMap, ctx.Reader().Pos(0)); err != nil {
+	node, _, err = p.Parse(ctx, data.EmptyIntMap, ctx.Reader().Pos(0))
+	if err == nil && node == nil {
+		// The parser matched nothing and reported nothing (e.g. a left-recursive
+		// rule without a base case is only ever curtailed): that is a failure too.
+		if err = ctx.Error(); err == nil {
+			err = NewErrorf(ctx.Reader().Pos(0), "the parser did not match the input")
+		}
+	}
+	if err != nil {
 		if !IsWhitespaceError(err) {
 			if ctxErr := ctx.Error(); ctxErr != nil && ctxErr.Pos() > err.Pos() {
 				err = ctxErr
